@@ -258,7 +258,7 @@ class C11(Prop):
         yield self.make_case(spec, rng, n_members=2, n_corrupt=6, n_random=1, cap=cap)
 
   def model_request(self, case):
-    return {'op': 'space', 'spec': case['spec'], 'fuel': case['fuel'],
+    return {'op': 'space', 'spec': case['spec'], 'fuel': case['fuel'], 'sweep_cap': SWEEP_CAP,
             'want_first': not G.has_custom(case['spec']),
             'dnas': [d['tree'] for d in case['dnas']],
             'draws': case['scripts'], 'cmps': case['cmps']}
@@ -269,12 +269,22 @@ class C11(Prop):
       sw = geno.Sweeping()
       sw.setup(spec)
       props = []
+      ended = False
       for _ in range(fuel):
         try:
           props.append(tree_of(sw.propose()))
         except StopIteration:
+          ended = True
           break
-      return props
+      after = []
+      if ended:
+        # a second worker / a second loop keeps asking: the end must be absorbing
+        for _ in range(4):
+          try:
+            after.append(tree_of(sw.propose()))
+          except StopIteration:
+            after.append('stop')
+      return {'props': props, 'ended': ended, 'after_end': after}
     except CaseTimeout:
       raise
     except Exception as e:   # pylint: disable=broad-except
@@ -312,6 +322,8 @@ class C11(Prop):
       obs['bound'] = all(d.spec is not None for d in dnas)
       # the Sweeping generator
       obs['sweeping'] = self.sweep(geno, spec, case['fuel']) if len(dnas) <= SWEEP_CAP else None
+      if isinstance(obs['sweeping'], dict):
+        out['sweep'] = obs['sweeping']
     elif not G.has_custom(spec_j):
       try:
         out['first'] = tree_of(spec.first_dna())
@@ -384,6 +396,8 @@ class C11(Prop):
       if x != y:
         diffs.append('%s: impl=%s model=%s' % (name, str(x)[:300], str(y)[:300]))
     chk('size', a['size'], b['size'])
+    if 'sweep' in a:
+      chk('sweeping', a['sweep'], b.get('sweep'))
     if 'first' in a:
       chk('first', a['first'], b.get('first'))
     if 'iter' in a:
@@ -450,9 +464,14 @@ class C11(Prop):
       if m.get('first') != (it['dnas'][0] if it['dnas'] else None):
         return {'signature': 'first-differs', 'what': 'first_dna=%s, iteration starts with %s' % (
             m.get('first'), it['dnas'][:1])}
-      if obs.get('sweeping') is not None and obs.get('sweeping') != it['dnas']:
+      sw = obs.get('sweeping')
+      if sw is not None and (not isinstance(sw, dict) or sw['props'] != it['dnas'] or not sw['ended']):
         return {'signature': 'sweeping-differs', 'what': 'Sweeping proposals differ from iter_dna: %s'
-                % str(obs.get('sweeping'))[:300]}
+                % str(sw)[:300]}
+      if sw is not None and any(x != 'stop' for x in sw['after_end']):
+        return {'signature': 'sweeping-restarts-after-end',
+                'what': 'after StopIteration further propose() calls returned %s instead of raising StopIteration '
+                        'again' % str(sw['after_end'])[:300]}
       if not obs['bound']:
         return {'signature': 'iter-unbound', 'what': 'iter_dna returned a DNA without spec'}
     elif finite is False and m['size'] != -1:
